@@ -23,6 +23,11 @@ RULES = {
            'Non-trivial: >= 1 lifecycle operation executed; distinct by trace digest',
 }
 
+RULES['C10'] += (' Added later: an awaited expect(EOF) (asyncio closing the object), fdspawn with use_poll, the rarely used descriptor '
+                 'operations (setwinsize, getwinsize, setecho, getecho, waitnoecho, isatty, fileno, flush, readline, sendcontrol, sendintr) '
+                 'anywhere in the sequence, and a log file object that the application closes before it closes the spawn object.')
+RULES['C09'] += ' Added later: awaited expect(EOF), PopenSpawn children (status mapping in wait()).'
+
 ASSUME = ['wait() on a stopped child nobody continues is documented as unsupported and skipped',
           'signal delivery latency and descriptors-closed-to-reapable gap <= 20 ms (inside pexpect/ptyprocess 0.1 s grace sleeps)',
           'subprocess.Popen is stubbed (FakePopen over the simulated process table): for PopenSpawn only pexpect\'s own status mapping in wait() runs']
